@@ -19,6 +19,9 @@ CHECKS = {
  "C06": dict(cat="exploration", sec="4 (C06)", technique="exhaustive small-scope enumeration of statement trees with naked branches and else-if chains + random trees, against a recursive reference predicate; exact multiset of codes and lints",
    text="Every statement tree of <= 6 (quick) / <= 7 (thorough) nodes over assignment, goto, loop, label, block, if/else with arbitrary (also naked) branches is compiled; the multiset of E800/E801/E840 and, for accepted programs, of L1800 must equal the reference predicate's.",
    note="Trusted: reference predicate in harness/src/c06.rs. Trees without concrete syntax (dangling else) are discarded and counted."),
+ "C07": dict(cat="exploration", sec="4 (C07)", technique="exhaustive operator x type x type matrix, cast/unary matrix, templated typed edits with known codes, and an invariant walker over the compiler's resolved trees for generated programs",
+   text="All 2704 operator/type/type cells and 195 cast/unary cells are compiled: documented cells must be accepted, every mixed-type or wrong-class cell rejected with E550/E551/E552; 20 kinds of typed edits over random type pairs must be rejected with their E5xx/E333 code; in every accepted program the recorded types on both sides of each operator, comparison, initialisation, argument and return are identical and each operator is applied to its documented class.",
+   note="Cells the documentation does not settle are executed but not asserted. The walker trusts the types recorded by the compiler in resolved::Expression."),
  "C09": dict(cat="exploration", sec="4 (C09)", technique="combinatorial + random generation of literals (type x value class x spelling x context), executed and compared with a documentation-derived spec function; exhaustive char byte sweep; lint attribution by source line",
    text="Integer literals of every integer type at and around every width boundary, in every spelling and in eight syntactic contexts, all 256 char values in three spellings, random byte strings in mixed escape spellings with adjacent-literal concatenation, and 56 malformed forms are compiled; representable values must be accepted without L1142 and print exactly their value, unrepresentable ones must raise L1142 on their line, malformed ones must be rejected with their documented code.",
    note="Trusted: the spec function in harness/src/c09.rs (value-based range rule). Printed values of out-of-range literals are not asserted."),
